@@ -335,7 +335,8 @@ def runBuild (cfg : Cfg) (world : List GKey) (sim : GSim) (b : GBuild) : GSim :=
   let cutOf := fun (k : Nat) => b.fault == toString k
   if b.mode == "none" then
     let kres := b.keys.map fun k => direct st (k + 1)
-    { sim with st := st, outs := sim.outs ++ [outcomeOf b.keys kres (direct st 0)] }
+    let r := fetchIndexDirect st 0
+    { sim with st := r.1, outs := sim.outs ++ [outcomeOf b.keys kres r.2] }
   else if b.mode == "off" then
     let kres := b.keys.map fun k => fetchOffline cfg st (k + 1)
     let out := if schedDependent world b then "sched" else outcomeOf b.keys kres (fetchOffline cfg st 0)
@@ -346,7 +347,7 @@ def runBuild (cfg : Cfg) (world : List GKey) (sim : GSim) (b : GBuild) : GSim :=
     -- the keyring is initialised first (all entries are requested, concurrently); the index only after that
     if kres.any (·.isNone) then { st := st1, nextCache := next, outs := sim.outs ++ ["err"] }
     else
-      let r := fetch cfg st1 c memo 0 (b.fault == "i")
+      let r := fetchIndex cfg st1 c memo 0 (b.fault == "i")
       { st := r.1, nextCache := next, outs := sim.outs ++ [outcomeOf b.keys kres r.2] }
 
 def runProc (cfg : Cfg) (world : List GKey) (sim : GSim) (p : List GBuild) : GSim :=
